@@ -86,7 +86,7 @@ def run(ctx):
     if have("DescriptiveTrace.tla"):
         for bn, _ in builds:
             tr = os.path.join(ctx.work, "stat-trace-%s.ndjson" % bn)
-            n = 60 if thorough else 16
+            n = 80 if thorough else 24
             summ = ctx.record(bins[bn], "stat", tr, ["samples=%d" % n, "maxn=200"], name="R3 record [%s]" % bn)
             ok, st = ctx.validate("stat/DescriptiveTrace.tla", "stat/DescriptiveTrace.cfg", tr,
                                   name="R3 validate [%s]" % bn)
@@ -125,6 +125,7 @@ EXTRA_QUICK = [
     ("roc", 0, 1, 3, "{1,2}", 8, 1),
     ("sort", 0, 1, 5, "{1}", 8, 1),
     ("chi", 0, 1, 3, "{1}", 8, 1),
+    ("dom", 0, 1, 3, "{0,1,2}", 8, 1),
 ]
 EXTRA_THOROUGH = [
     ("bi", 0, 1, 3, "{0,1,2}", 8, 1),
@@ -137,6 +138,8 @@ EXTRA_THOROUGH = [
     ("sort", 0, 1, 6, "{1}", 8, 1),
     ("sort", 1, 1, 5, "{1}", 8, 1),
     ("chi", 0, 1, 4, "{1}", 8, 1),
+    ("dom", 0, 1, 3, "{0,1,2}", 8, 1),
+    ("dom", 1, 1, 3, "{0,1,3}", 8, 1),
 ]
 
 
